@@ -589,7 +589,7 @@ pub fn random_case(rng: &mut Rng, max_defs: u64, max_body: u64) -> Case {
                 _ => (rng.below(3) as usize, 1 + rng.below(2) as usize),
             };
             let ps = (0..np).map(|_| random_param(rng, 2)).collect();
-            let qs = (0..nq).map(|_| qv(rng.pick(qvars.as_slice()))).collect();
+            let qs = (0..nq).map(|_| qv(rng.pick(qvars.as_slice()).as_str())).collect();
             gates.push(gate(callee, ps, qs, random_mods(rng, 6)));
         }
         defs.push(DefDesc {
